@@ -157,9 +157,14 @@ class SamplingInvariant:
     Per iteration (checked in the preservation step): card sigma(inx) is appended exactly when it lists a contest whose first
     n_c cards are not yet complete, i.e.  take(inx) = OR_c has_c(inx) and cnt_c(inx) < n_c."""
 
-    def __init__(self, S, cards, cons, sizes, N):
+    def __init__(self, S, cards, cons, sizes, N, prior=None):
         self.S, self.cards, self.cons, self.sizes, self.N = S, cards, cons, sizes, N
         self.post = None
+        # continuation: `prior` is the list of card indices sampled before (symbolic length P0); the loop then appends only the
+        # taken cards that are not in it.  From scratch: P0 = 0 and nothing is "in the prior".
+        self.prior = prior
+        self.P0 = prior.length if prior is not None else 0
+        self.inprior = lambda idx: False
 
     def roles(self, env):
         """the loop state by role, not by name (renaming a local must not matter): the sorted index list, the per-contest
@@ -194,14 +199,24 @@ class SamplingInvariant:
             # real code runs off the end of the list); the count is taken along the sorted order (a permutation: same count)
             ctx().assume(icmp("<=", self.sizes[c], self.cnt[c].at(self.N)))
         self.take = lambda j: bor(*[band(self.has[cid](j), icmp("<", self.cnt[cid].at(j), self.sizes[cid])) for cid in CONTESTS])
-        self.T = SymArr(self.N, lambda j: mkint(iite(self.take(j), 1, 0)), "int").fold("+")
+        if self.prior is not None:
+            from pyvc.heap import SymIntSet
+            sets = [v for v in env.vars.values() if isinstance(v, SymIntSet)]
+            if len(sets) != 1:
+                raise NotApplicable("the set of previously sampled cards was not recognised")
+            self.inprior = lambda idx: sets[0].member(zi(iterm(idx)))
+        # a taken card is NEW when it was not sampled before
+        self.new = lambda j: band(self.take(j), bnot(self.inprior(self.sigma(j))))
+        self.T = SymArr(self.N, lambda j: mkint(iite(self.new(j), 1, 0)), "int").fold("+")
 
     def sel_ok(self, sel, L, POS, p, inx):
-        """the p-th selected card is sigma(POS(p)), where POS(p) < inx is the position of the p-th taken card"""
+        """below P0 the list is the prior selection, untouched; the (p - P0)-th card after it is sigma(POS(p)), where POS(p) < inx is
+        the position of the (p - P0)-th new taken card"""
         q = POS(p)
-        return bimp(band(icmp(">=", p, 0), icmp("<", p, L)),
-                    band(icmp(">=", q, 0), icmp("<", q, inx), self.take(q), icmp("==", self.T.at(q), p),
-                         icmp("==", sel.at(p), self.sigma(q))))
+        old = bimp(band(icmp(">=", p, 0), icmp("<", p, self.P0)), icmp("==", sel.at(p), self.prior.at(p))) if self.prior is not None else True
+        return band(old, bimp(band(icmp(">=", p, self.P0), icmp("<", p, L)),
+                              band(icmp(">=", q, 0), icmp("<", q, inx), self.new(q), icmp("==", self.T.at(q), isub(p, self.P0)),
+                                   icmp("==", sel.at(p), self.sigma(q)))))
 
     def state_ok(self, env, inx, wit):
         out = []
@@ -219,8 +234,8 @@ class SamplingInvariant:
                                                       icmp("==", self.cnt[c].at(w), isub(cur, 1)),
                                                       bterm_eq(thr, sn)))))
         L = env.vars[self.n_sel].length if isinstance(env.vars[self.n_sel], SymArr) else len(env.vars[self.n_sel])
-        out.append(("selected so far: between 0 and inx cards", band(icmp(">=", L, 0), icmp("<=", L, inx))))
-        out.append(("number selected = number of taken positions before inx", icmp("==", L, self.T.at(inx))))
+        out.append(("selected so far: the prior selection plus at most inx cards", band(icmp(">=", L, self.P0), icmp("<=", L, iadd(self.P0, inx)))))
+        out.append(("number selected = prior + number of new taken positions before inx", icmp("==", L, iadd(self.P0, self.T.at(inx)))))
         out.append(("position within the list", band(icmp(">=", inx, 0), icmp("<=", inx, self.N))))
         return out
 
@@ -258,8 +273,8 @@ class SamplingInvariant:
             before = {cid: cs[cid] for cid in CONTESTS}
             run_loop_body(I, st, env, in_class)
             sel2 = env.vars[self.n_sel]
-            take = bor(*[band(self.has[cid](inx), icmp("<", self.cnt[cid].at(inx), self.sizes[cid])) for cid in CONTESTS])
-            S.holds("card sigma(inx) is appended exactly when it lists a contest whose first n_c cards are not complete",
+            take = self.new(inx)
+            S.holds("card sigma(inx) is appended exactly when it lists a contest whose first n_c cards are not complete (and was not sampled before)",
                     band(icmp("==", sel2.length, iadd(L0, iite(take, 1, 0))),
                          bimp(take, icmp("==", sel2.at(L0), self.sigma(inx)))))
             kk = z3.Int(c.fresh("selk"))
@@ -290,8 +305,10 @@ def bterm_eq(a, b):
     return xsame(a, b) if isinstance(a, XR) or isinstance(b, XR) else (a is b)
 
 
-@script(["C07"], "CVR.consistent_sampling/loop invariant (unbounded number of cards, 2 contests)", optional=True)
+@script(["C07", "C10"], "CVR.consistent_sampling/loop invariant (unbounded number of cards, 2 contests)",
+        variants=(("from scratch",), ("continued from earlier samples",)), optional=True)
 def consistent_sampling_unbounded(S, I, variant):
+    continued = variant[0] != "from scratch"
     c = ctx()
     N = S.integer("N", lo=0)
     CVR = I.get(MOD, "CVR")
@@ -308,7 +325,13 @@ def consistent_sampling_unbounded(S, I, variant):
     for cid in CONTESTS:
         sizes[cid] = S.integer(f"size_{cid}", lo=0)
         cons[cid] = mk_contest(I, id=cid, sample_size=sizes[cid], cards=10, candidates=["x"], winner=["x"])
-    inv = SamplingInvariant(S, cards, cons, sizes, iterm(N))
+    prior = None
+    if continued:
+        P0 = S.integer("n_sampled_before", lo=0)
+        PR = z3.Function("sampled_before", z3.IntSort(), z3.IntSort())
+        prior = SymArr(iterm(P0), lambda pp: SInt(PR(zi(pp))), "int")
+        prior.is_list = True
+    inv = SamplingInvariant(S, cards, cons, sizes, iterm(N), prior=prior)
     I.invariants[("CVR.consistent_sampling", "while", 0)] = inv
     # the final flag-setting loop is abstracted away here (it is covered by the structure-bounded scripts): stop after the while
     I.invariants[("CVR.consistent_sampling", "for", -1)] = StopHere(inv)
@@ -318,7 +341,10 @@ def consistent_sampling_unbounded(S, I, variant):
     # precondition: sizes do not exceed the cards available; stated over the ghost counts once the permutation exists (inside the invariant)
     inv.pre_sizes = True
     try:
-        r, exc = guard(S, I, lambda: I.call(fn, [], {"cvr_list": cards, "contests": cons}))
+        kw = {"cvr_list": cards, "contests": cons}
+        if continued:
+            kw["sampled_cvr_indices"] = prior
+        r, exc = guard(S, I, lambda: I.call(fn, [], kw))
     except CutPath:
         return
     except StopHere.Reached:
@@ -329,10 +355,14 @@ def consistent_sampling_unbounded(S, I, variant):
     p = z3.Int(c.fresh("p"))
     c.assume(zb(inv.sel_ok(inv.post["sel"], inv.post["L"], inv.post["POS"], p, inx)))     # invariant clause at an arbitrary p
     q = inv.post["POS"](p)
-    S.holds("exit: the p-th selected card (any p) is a card among the first n_c cards listing some contest c, taken in sorted order",
-            bimp(band(icmp(">=", p, 0), icmp("<", p, inv.post["L"])),
-                 band(icmp("==", inv.post["sel"].at(p), inv.sigma(q)), inv.take(q), icmp("==", inv.T.at(q), p))))
-    S.holds("exit: number selected = number of taken positions", icmp("==", inv.post["L"], inv.T.at(inx)))
+    S.holds("exit: beyond the earlier samples, the p-th selected card (any p) is a card among the first n_c cards listing some contest c, "
+            "taken in sorted order and not sampled before",
+            bimp(band(icmp(">=", p, inv.P0), icmp("<", p, inv.post["L"])),
+                 band(icmp("==", inv.post["sel"].at(p), inv.sigma(q)), inv.take(q), icmp("==", inv.T.at(q), isub(p, inv.P0)))))
+    if continued:
+        S.holds("exit: the earlier samples are kept, in place (every round's cards contain the previous round's)",
+                bimp(band(icmp(">=", p, 0), icmp("<", p, inv.P0)), icmp("==", inv.post["sel"].at(p), prior.at(p))))
+    S.holds("exit: number selected = earlier samples + number of new taken positions", icmp("==", inv.post["L"], iadd(inv.P0, inv.T.at(inx))))
     for cid in CONTESTS:
         w = wit[cid]
         S.holds(f"[{cid}] exit: threshold = sample number of the contest's n_c-th card in sorted order",
